@@ -42,6 +42,21 @@ Loc = _f()
 import dataclasses as _dc
 Dyn = _dc.make_dataclass("DynHidden", [("z", int)], bases=(DataClassDictMixin,))
 ''', ["Dyn", "List[Dyn]", "Optional[Dyn]"], None),
+    "generic_with_local_arg": ('''
+def _g():
+    @dataclass
+    class LocItem:
+        price: int
+    return LocItem
+LocItem = _g()
+_GT = TypeVar("_GT")
+@dataclass
+class GBox(Generic[_GT]):
+    content: _GT
+@dataclass
+class GBox2(Generic[_GT]):
+    items: List[_GT]
+''', ["GBox[LocItem]", "GBox2[LocItem]", "List[GBox[LocItem]]"], None),
     "builtins_generics": ("", ["types.MappingProxyType[str, int]", "re.Pattern", "collections.deque[int]", "collections.OrderedDict[str, H1]",
                                 "collections.defaultdict[str, H1]", "collections.defaultdict[str, List[int]]", "zoneinfo.ZoneInfo", "pathlib.PosixPath"], None),
 }
@@ -86,7 +101,44 @@ def awkward_task(payload):
         src += "\n@dataclass\nclass C(DataClassDictMixin):\n    x: L1\n    w: L2\n    y: Optional[L1] = None\n"
     else:
         src += f"\n@dataclass\nclass C(DataClassDictMixin):\n    x: {texpr}\n    y: Optional[{texpr}] = None\n"
+    if fam in SAMPLES:
+        # specialised generic dataclasses have no symbolic reference: closedness of every generated
+        # function (all paths) + a concrete identity sample, labelled bounded
+        r = _verify_closed_only(pid, label, src)
+        r["obligations"] += _sample_identity(pid, label, src, SAMPLES[fam][texpr])
+        return r
     return _verify_schema(pid, label, src)
+
+
+SAMPLES = {
+    "generic_with_local_arg": {
+        "GBox[LocItem]": ("{'content': {'price': '7'}}", "type(v.content) is LocItem and v.content.price == 7"),
+        "GBox2[LocItem]": ("{'items': [{'price': '7'}]}", "type(v.items[0]) is LocItem and v.items[0].price == 7"),
+        "List[GBox[LocItem]]": ("[{'content': {'price': '7'}}]", "type(v[0].content) is LocItem and v[0].content.price == 7"),
+    },
+}
+
+
+def _sample_identity(pid, label, src, sample):
+    data_expr, check_expr = sample
+    oid = f"{pid}.G9{label}/identity_sample"
+    try:
+        mod, recs = build.build_module(src)
+    except Exception as e:  # reported by /builds
+        return []
+    try:
+        ns = dict(mod.__dict__)
+        data = eval(data_expr, ns)
+        try:
+            r = mod.C.from_dict({"x": data})
+            ok = bool(eval(check_expr, dict(ns, v=r.x))) and r.y is None and mod.C.from_dict(r.to_dict()) == r
+            why = "" if ok else f"from_dict({{'x': {data_expr}}}) = {r!r}: the decoded value is not built from the annotated classes"
+        except Exception as e:  # noqa
+            ok, why = False, f"from_dict({{'x': {data_expr}}}) raised {type(e).__name__}: {str(e)[:200]}"
+        return [dict(id=oid, status="proved" if ok else "refuted", unit="C.from_dict / to_dict on one sample (bounded)", detail=why, bounded=True,
+                     witness=None if ok else {"confirmed": True, "source": src, "input": f"{{'x': {data_expr}}}", "why": why})]
+    finally:
+        build.drop_module(mod)
 
 
 def _verify_schema(pid, label, src, dialect="default"):
